@@ -17,6 +17,7 @@ from vc.core.runner import Case
 from vc.core.api import KINDS
 from spec import quant as Q
 from spec import model as M
+from spec import gridlemmas as GL
 
 META = {
     "level": "proof",
@@ -27,9 +28,10 @@ META = {
 
 
 def coords(api, pfx, g, inside=True):
-    x = api.int(pfx + "x", -10**6, 10**6, draw=(-1, 3))
-    y = api.int(pfx + "y", -10**6, 10**6, draw=(-1, 3))
-    z = api.int(pfx + "z", -10**6, 10**6, draw=(-1, 2))
+    dr = (0, 1) if inside else (-1, 3)
+    x = api.int(pfx + "x", -10**6, 10**6, draw=dr)
+    y = api.int(pfx + "y", -10**6, 10**6, draw=dr)
+    z = api.int(pfx + "z", -10**6, 10**6, draw=(0, 0) if inside else (-1, 2))
     ins = api.and_(api.le(0, x), api.lt(x, g.w), api.le(0, y), api.lt(y, g.h), api.le(0, z), api.lt(z, g.d))
     if inside:
         api.assume(ins)
@@ -62,8 +64,7 @@ def bijection_case():
         g = M.mk_grid(api, E=1, env_form="scalar")
         # coordinates -> index -> coordinates
         x, y, z, _ = coords(api, "c", g)
-        i = lin(g, x, y, z)
-        api.lemma("L9", api.and_(api.le(0, i), api.lt(i, g.n)))
+        i = GL.coords_to_index(api, g, x, y, z)
         out = api.call(lambda: g.obj.get_cell_index((x, y, z)))
         api.check(P + "/index_ok", out.ok, "raised %r" % (out.exc,))
         if out.ok:
@@ -91,11 +92,13 @@ def index_roundtrip_case():
     def run(api):
         g = M.mk_grid(api, E=1, env_form="scalar")
         i = api.index("i", g.n)
+        sx, sy, sz = GL.index_to_coords(api, g, i)
         c = api.call(lambda: g.obj.get_cell_coordinates(i))
         api.check(P + "/coordinates_ok", c.ok, "raised %r" % (c.exc,))
         if not c.ok:
             return
         cx, cy, cz = c.value
+        api.check(P + "/coordinates_are_quotients", api.and_(api.eq(cx, sx), api.eq(cy, sy), api.eq(cz, sz)))
         api.check(P + "/in_range", api.and_(api.le(0, cx), api.lt(cx, g.w), api.le(0, cy), api.lt(cy, g.h),
                                             api.le(0, cz), api.lt(cz, g.d)))
         api.check(P + "/recomposes", api.eq(lin(g, cx, cy, cz), i))
@@ -168,14 +171,10 @@ def neighbors_case(form):
         g = M.mk_grid(api, E=1, env_form="scalar")
         x1, y1, z1, _ = coords(api, "a", g)
         x2, y2, z2, _ = coords(api, "b", g)
-        i1, i2 = lin(g, x1, y1, z1), lin(g, x2, y2, z2)
-        for i in (i1, i2):
-            api.lemma("L9", api.and_(api.le(0, i), api.lt(i, g.n)))
+        i1 = GL.coords_to_index(api, g, x1, y1, z1)
+        i2 = GL.coords_to_index(api, g, x2, y2, z2)
         if form == "index":
-            # positions given as linear indices: the code decomposes them again (L9b: uniqueness)
             p1, p2 = i1, i2
-            api.lemma("L9b", decomposition_facts(api, g, i1, x1, y1, z1))
-            api.lemma("L9b", decomposition_facts(api, g, i2, x2, y2, z2))
         else:
             p1, p2 = as_form(form, x1, y1, z1), as_form(form, x2, y2, z2)
         out = api.call(lambda: g.obj.are_neighbors(p1, p2))
@@ -205,15 +204,14 @@ def decomposition_facts(api, g, i, x, y, z):
     return SBool(f)
 
 
-def get_neighbors_case():
-    cid = "neighbours/get_neighbors"
+def get_neighbors_case(bc):
+    cid = "neighbours/get_neighbors/" + "".join(v[0] for v in bc)
     P = "C15/neighbours"
 
     def run(api):
-        g = M.mk_grid(api, E=1, env_form="scalar")
+        g = M.mk_grid(api, E=1, env_form="scalar", bc=dict(zip("xyz", bc)))
         x, y, z, _ = coords(api, "a", g)
-        i = lin(g, x, y, z)
-        api.lemma("L9", api.and_(api.le(0, i), api.lt(i, g.n)))
+        i = GL.coords_to_index(api, g, x, y, z)
         out = api.call(lambda: g.obj.get_neighbors((x, y, z)))
         api.check(P + "/get_neighbors_ok", out.ok, "raised %r" % (out.exc,))
         if not out.ok:
@@ -320,6 +318,8 @@ for _f in ("index", "tuple", "list", "object"):
     CASES.append(bounds_case(_f))
 for _f in ("tuple", "object", "index"):
     CASES.append(neighbors_case(_f))
-CASES.append(get_neighbors_case())
+import itertools as _it
+for _bc in _it.product(("reflecting", "periodical"), repeat=3):
+    CASES.append(get_neighbors_case(_bc))
 CASES.append(Case("grid_to_graph/bounded", grid_to_graph_case, functions=["grid_to_graph"], sym=False,
                   bounded="all shapes w,h<=3, d<=2 (thorough: <=4,<=4,<=3) x 8 boundary combinations, exhaustive"))
